@@ -283,6 +283,7 @@ type Runner struct {
 	BlockWait time.Duration
 	StepWait  time.Duration
 	Err     string
+	deferred []arrival // arrivals of threads that got the lock while its holder had not yet reported its return
 }
 
 func goid() int64 {
@@ -392,7 +393,26 @@ func waitReloadGoroutines() {
 	}
 }
 
+// record notes an arrival.  A thread blocked on reloadMu can pass its first yield point
+// before the returning holder (whose deferred Unlock has already run) has reported "done":
+// such an arrival is kept back and recorded right after the holder's.
 func (r *Runner) record(a arrival) {
+	if (a.point == "acquired" || a.point == "reload_locked") && r.holder != -1 && r.holder != a.tid &&
+		r.threads[r.holder].pending {
+		r.deferred = append(r.deferred, a)
+		return
+	}
+	r.record1(a)
+	if a.point == "done" && len(r.deferred) > 0 {
+		d := r.deferred
+		r.deferred = nil
+		for _, x := range d {
+			r.record(x)
+		}
+	}
+}
+
+func (r *Runner) record1(a arrival) {
 	t := r.threads[a.tid]
 	t.pending = false
 	t.point = a.point
